@@ -294,7 +294,11 @@ class Twin:
             before = ctypes.string_at(dm, 0x20000)
             pm = tw.fn('nm_pmem', ctypes.c_void_p, [])()
             pbefore = ctypes.string_at(pm, 0x80000)
+            tw.fn('nm_wlog_clear', None, [])()
             rc = tw.fn('nm_try_row', ctypes.c_int, [ctypes.c_void_p, ctypes.c_uint, ctypes.c_uint16, ctypes.c_uint16])(m, row, o, e)
+            nw = tw.fn('nm_wlog_n', ctypes.c_int, [])()
+            wl = tw.fn('nm_wlog', ctypes.c_uint, [ctypes.c_int, ctypes.c_int])
+            writes = [('program' if wl(k, 0) else 'data', wl(k, 1), wl(k, 2)) for k in range(min(nw, 64))]
             out = {}
             for f, (off, sz, cnt, stride) in s.rl.items():
                 if f == '_size' or sz > 8:
@@ -313,7 +317,7 @@ class Twin:
                 for a_ in range(0x40000):
                     if pafter[2 * a_:2 * a_ + 2] != pbefore[2 * a_:2 * a_ + 2]:
                         pch[a_] = int.from_bytes(pafter[2 * a_:2 * a_ + 2], 'little')
-            return {'regs': out, 'dmem': ch, 'pmem': pch, 'unimpl': rc == 1}
+            return {'regs': out, 'dmem': ch, 'pmem': pch, 'writes': writes, 'unimpl': rc == 1}
         return native.in_child(body)
 
 
